@@ -17,8 +17,7 @@ def run(tier, seed, verdict):
     st = res.stats
     need = ["scheduled_items", "bytes_transferred", "reads", "writes", "reads_cancelled_done", "os_errors_checked", "contexts"]
     missing = [k for k in need if not st.get(k)]
-    if missing:
-        raise core.HarnessFailure("io harness observed none of: %s" % missing)
+    core.require_observed(verdict, missing, "io harness")
     cov = {
         "evaluations": st.get("scheduled_items", 0) + st.get("reads", 0) + st.get("writes", 0),
         "distinct_nontrivial": sum(1 for v in st.values() if v) + sum(1 for v in res.hooks.values() if v),
